@@ -1,11 +1,13 @@
 #!/bin/sh
-# usage: tools/try_mutation.sh <patch.diff> <Cxx> [more Cxx...] — apply to /repo, run quick checks, undo
+# usage: tools/try_mutation.sh </absolute/patch.diff> <Cxx> [more Cxx...] — apply to /repo, run quick checks, undo
+. /verif/tools/repo_patch.sh
 patch="$1"; shift
-git -C /repo apply "$patch" || exit 2
+repo_require_clean
+repo_apply "$patch" || { echo "patch does not apply"; exit 2; }
 mkdir -p /verif/work/mut-evidence
 export VERIF_EVIDENCE_DIR=/verif/work/mut-evidence
 for p in "$@"; do
   /verif/check "$p" --tier quick 2>&1 | grep -E "^(VIOLATION|OK|KNOWN)" | head -3
 done
-git -C /repo checkout -- .
+repo_restore
 git -C /repo status --short
